@@ -48,6 +48,9 @@ def gen_cases(ctx):
         c["kind"] = "history"
         c["episodes"] = rng.choice([1, 1, 2, 3])
         c["observers"] = rng.random() < 0.25   # every built-in observer + residual updater attached
+        # a second live dispatcher that uses the SAME filter object and reaches the same job
+        # progress along another order of the same dispatches
+        c["sibling"] = filt and rng.random() < 0.3
         if i % 40 == 7:
             # non-integral durations: only monotonicity, growth of the completed set and
             # "clock == makespan at completion" are judged (the library truncates the clock)
@@ -87,6 +90,13 @@ def one_history(ctx, case, explicit=None, instance=None):
         from . import _snap
         _snap.full_observer_set(d)
         ctx.count("histories_with_all_observers_attached")
+    sib = None
+    pending = None
+    if case.get("sibling") and explicit is None and run.filter_names is not None:
+        sib = Run(case["instance"], case.get("filter"), instance=run.instance,
+                  dispatcher=Dispatcher(run.instance,
+                                        ready_operations_filter=d.ready_operations_filter))
+        ctx.count("histories_with_a_sibling_sharing_the_filter")
     last = d.current_time()
     ctx.count("clock_steps_checked")
     if last != r.current_time(None) and run.clock_exact:
@@ -107,6 +117,8 @@ def one_history(ctx, case, explicit=None, instance=None):
             d.reset(); r.reset()
             if twin is not None:
                 twin.reset()
+            if sib is not None:
+                sib.d.reset(); sib.r.reset(); pending = None
             ctx.count("episodes_after_reset")
             last = d.current_time()
             completed = set(o.operation_id for o in d.completed_operations())
@@ -144,8 +156,34 @@ def one_history(ctx, case, explicit=None, instance=None):
             ctx.count("disturbing_min_start_time_calls")
             if got != r.min_start(sub):
                 ctx.violation("c06_min_start_time_of_sublist", {"ops": sub, "got": got, "want": r.min_start(sub)})
+        if sib is not None:
+            # the sibling performs the same dispatches with adjacent pairs swapped where legal
+            if pending is None:
+                pending = (o, m)
+            else:
+                pair = [pending, (o, m)]
+                if sib.r.op_job[o] != sib.r.op_job[pending[0]]:
+                    pair.reverse()
+                    ctx.count("sibling_swapped_pairs")
+                for o2, m2 in pair:
+                    sib.dispatch(o2, m2)
+                pending = None
+                got2 = sib.d.current_time()
+                ctx.count("sibling_clock_checks")
+                if sib.clock_exact and got2 != sib.r.current_time(None):
+                    ctx.violation("c06_clock_differs_from_reference",
+                                  {"got": got2, "want": sib.r.current_time(None),
+                                   "history": list(sib.r.history), "filter": run.filter_names,
+                                   "who": "second dispatcher sharing the filter object",
+                                   "other_history": list(r.history)})
         now = d.current_time()
         ctx.count("clock_steps_checked")
+        if sib is not None and pending is None and sib.clock_exact \
+                and sib.d.current_time() != sib.r.current_time(None):
+            ctx.violation("c06_clock_differs_from_reference",
+                          {"got": sib.d.current_time(), "want": sib.r.current_time(None),
+                           "history": list(sib.r.history), "filter": run.filter_names,
+                           "who": "second dispatcher sharing the filter object, read again"})
         if now < last:
             ctx.violation("c06_clock_went_backwards",
                           {"before": last, "after": now, "history": list(r.history),
